@@ -251,6 +251,7 @@ def r_map_end_wrapper(ctx: Ctx, rule: str) -> None:
                 t = c.callee.targets[0]
                 fn = ctx.call_arg(c.ast, t, t.param_names()[0])
                 args = ctx.call_arg(c.ast, t, t.param_names()[1])
+                args = ctx.vals.resolve(c.func, args) if args is not None else None
                 rep.ob(rule, "the wrapped callback is the request's end callback", expr_role(ctx, f, fn) == "END", node=c)
                 ok = isinstance(args, ast.Tuple) and len(args.elts) == 1 and expr_role(ctx, f, args.elts[0]) == "ID"
                 rep.ob(rule, "the wrapped callback receives the task id", ok, node=c)
